@@ -26,6 +26,7 @@ from rules.common import *
 from rules.order import ok_cut
 import pathsens
 
+TECHNIQUE = ('static analysis over rustc MIR: expression-precise validator argument on every path-building site, call-graph who-may-remove rule, metadata ordering (ownership before permission) through helpers, exact-size reuse and hard-link replacement rules, no-follow open flags')
 LEVEL = "other"
 EXPLANATION = (
     "Taint/sanitiser, guard and ordering rules over commands/restore.rs, blob/tree.rs (NodeStreamer) and "
